@@ -15,7 +15,10 @@ Recs == AtomRecs \cup {[k |-> "TER"]}
 Last(q) == q[Len(q)]
 (* previous atom record index (any kind), 0 if none *)
 PrevAtom(q) == LET c == {j \in 1..Len(q) : IsAtomRec(q[j])} IN IF c = {} THEN 0 ELSE CHOOSE j \in c : \A x \in c : x <= j
-SameRes(a, b) == Rid(a) = Rid(b) /\ a.rn = b.rn /\ a.k = b.k
+(* records of one residue carry one residue name - except an alt-loc point mutant (micro-heterogeneity): copies with
+   different non-blank alt-loc labels may be different amino acids *)
+Mutant(a, b) == {a.rn, b.rn} = {"AA", "AB"} /\ a.alt # b.alt /\ a.alt # " " /\ b.alt # " "
+SameRes(a, b) == Rid(a) = Rid(b) /\ (a.rn = b.rn \/ Mutant(a, b)) /\ a.k = b.k
 WellFormedAppend(q, r) ==
   IF ~IsAtomRec(r) THEN
        \* TER / MODEL / OTHER only between residues (never twice in a row, to keep the space small)
@@ -25,6 +28,9 @@ WellFormedAppend(q, r) ==
         sep == p # 0 /\ \E t \in (p + 1)..Len(q) : q[t].k \in {"TER", "MODEL"}
         cont == p # 0 /\ ~sep /\ Rid(q[p]) = Rid(r)
     IN /\ (cont => SameRes(q[p], r))
+       \* within a residue one alt-loc label means one residue name
+       /\ (cont => \A j \in 1..Len(q) : (IsAtomRec(q[j]) /\ Rid(q[j]) = Rid(r) /\ q[j].alt = r.alt
+                                           /\ ~(\E t \in (j + 1)..Len(q) : q[t].k = "MODEL")) => q[j].rn = r.rn)
        \* a residue identity is used by one residue only (per model: a MODEL record starts afresh)
        /\ (~cont => \A j \in 1..Len(q) : IsAtomRec(q[j]) => (Rid(q[j]) # Rid(r) \/ \E t \in (j + 1)..Len(q) : q[t].k = "MODEL"))
        \* no duplicated atom within the residue
